@@ -56,6 +56,8 @@ type GripServer struct {
 	stateLock sync.RWMutex
 	//updateLock lets one graph map update run at a time
 	updateLock sync.Mutex
+	//fullGraphLock lets one schema or mapping upload run at a time
+	fullGraphLock sync.Mutex
 }
 
 // NewGripServer initializes a GRPC server to connect to the graph store
